@@ -56,6 +56,8 @@ Proof.
     rewrite ?andb_false_r; cbn [andb]; try reflexivity.
   - destruct (String.eqb cmd "dry"); reflexivity.
   - destruct (q_group_missing_config_ignored q); reflexivity.
+  - change threshold_min_valid with 1%Z. replace (v <? 1)%Z with (v <=? 0)%Z by (destruct (Z.leb_spec v 0), (Z.ltb_spec v 1); (reflexivity || lia)).
+    destruct (v <=? 0)%Z; reflexivity.
 Qed.
 
 (* ---------- violations built for syntax errors ---------- *)
